@@ -206,6 +206,17 @@ fn expect_convert(spec: &RunSpec, c: &Convert, w: &World) -> Expect {
         stroke_color: None,
         scale: None,
     };
+    if !c.extra_args.is_empty() {
+        fail("usage error: unexpected argument");
+    }
+    {
+        let mut seen = std::collections::BTreeSet::new();
+        for o in &c.opts {
+            if !seen.insert(o.name.as_str()) {
+                fail("usage error: option given twice");
+            }
+        }
+    }
     for o in &c.opts {
         match o.name.as_str() {
             "background" => ms.background = Some(o.value.clone()),
